@@ -70,6 +70,11 @@ def session_task(W, payload, r, prog, out):
     S = fresh_session(W)
     if not S.build(ops):
         bump(out, "build_rejected"); return out
+    # a definition that builds but cannot be run at all (e.g. an infection flow into a compartment without strain in a strain model) has no
+    # session behaviour to speak of
+    probe = build(ops)
+    if probe is None or not probe.apply({"op": "run", "params": [[k, v] for k, v in params.items()], "solver": "euler", "rebuild": True})["ok"]:
+        bump(out, "definition_cannot_run"); return out
     lp = S.L.send({"op": "input_params"})
     keys = sorted(lp["params"])
     hist = []; lops = []
